@@ -9,6 +9,7 @@ unflushed collect, unfinished asynchronous consumer); never negative.
 """
 from .. import asynccheck as ac, graphcheck
 from . import _async_common as A
+from .c02 import corr_modules, lean_extra
 
 ASPECTS = ("flow", "err", "counts", "fires", "starts")
 CHECKS = ("sem", "refs")
@@ -25,11 +26,13 @@ CORPUS = [
 
 
 def run(ctx):
-    ctx.audit()
+    ctx.audit(extra_modules=lean_extra())
     n = 300 if not ctx.thorough() else 10000
     graphcheck.run_family(ctx, n, ASPECTS, CHECKS, SIGS, corpus=CORPUS, flavours=("future", "coro", "tornado"))
     # asynchronous holding nodes: balance at the final quiescent point, never negative, never rising after zero
     A.sweep(ctx, n // 2, A.ALL_KINDS, ["balance"], SIGS_B, opts={"small_alphabet": True})
+    for m in corr_modules():
+        m.run(ctx, "C05", 30 if not ctx.thorough() else 1000)
     ctx.coverage["rule"] = ("as C01 with a fresh reference counter on ~80% of the metadata entries; counts are read after every operation "
                             "(each is a quiescent point: the synchronous part has finished and the loop has settled). "
                             "Non-trivial: pipeline has a holding/dropping node and >= 8 flow events.")
@@ -38,7 +41,7 @@ def run(ctx):
 
 
 def replay(ctx, data):
-    ctx.audit()
+    ctx.audit(extra_modules=lean_extra())
     case = data["case"]
     if any(op["op"] in ("advance", "settle", "jobdone") for op in case["ops"]):
         ac.evaluate(ctx, case, ac.rerun(case), ["balance"], SIGS_B)
